@@ -184,6 +184,9 @@ def default_verdict(
         return INCONCLUSIVE
     if state in ("POST_FAIL", "EXEC_ERR", "POST_ERR"):
         fails = r.get("fails") or []
+        if not fails and "Inconclusive" in (r.get("message") or ""):
+            run.ob(name, "XH", INCONCLUSIVE, detail=f"{r.get('message')}", **common)
+            return INCONCLUSIVE
         if not fails:
             # exception escaped the harness: either harness error or unexpected exception in the code under test;
             # the harness is responsible for catching exceptions of the code under test, so this is a harness error
@@ -191,7 +194,15 @@ def default_verdict(
             return ERROR
         reproduced_any = False
         non_repro = []
-        for f in fails[-3:]:
+        # state that earlier paths left behind in the worker process (module-level memo tables of the code under test) can make a
+        # path fail that does not fail on its own: try up to 10 distinct recorded failures, newest first, until one reproduces
+        cands, seen_inputs = [], set()
+        for f in reversed(fails):
+            key = json.dumps(f["inputs"], sort_keys=True, default=str)
+            if key not in seen_inputs:
+                seen_inputs.add(key)
+                cands.append(f)
+        for f in cands[:10]:
             rep = replay_native(r["module"], r["fn"], r.get("globals") or {}, f["inputs"])
             run.counters["replayed_witnesses"] += 1
             if rep.get("outcome") == "fail":
